@@ -188,6 +188,7 @@ ShtRole(d) ==   \* gABI figure 4-9 and the GNU / Sun additions (numbers as LE di
 PtRole(d) == CASE d = <<1, 0, 0, 0>> -> "load" [] d = <<2, 0, 0, 0>> -> "dynamic" [] d = <<3, 0, 0, 0>> -> "interp" [] d = <<4, 0, 0, 0>> -> "note"
                [] d = <<6, 0, 0, 0>> -> "phdr" [] OTHER -> "other"
 
+MinN(a, b) == IF a < b THEN a ELSE b
 \* everything below is evaluated once per seed (SeedTab)
 Locate(bs) ==
   LET B(i) == bs[i + 1]
@@ -199,15 +200,15 @@ Locate(bs) ==
       phoff == E("e_phoff")   phent == E("e_phentsize")   phnum == E("e_phnum")
       ShAt(i) == shoff + i * shent
       PhAt(j) == phoff + j * phent
-      SF_(i, name) == FN(B, ShAt(i), ShdrF, cls, le, name)
-      PF_(j, name) == FN(B, PhAt(j), PhdrF(cls), cls, le, name)
+      ShFld(i, name) == FN(B, ShAt(i), ShdrF, cls, le, name)
+      PhFld(j, name) == FN(B, PhAt(j), PhdrF(cls), cls, le, name)
       shrole == [i \in 0..(shnum - 1) |-> IF i = 0 THEN "null0" ELSE IF i = strndx THEN "shstrtab" ELSE ShtRole(FD(B, ShAt(i), ShdrF, cls, le, "sh_type"))]
       phrole == [j \in 0..(phnum - 1) |-> PtRole(FD(B, PhAt(j), PhdrF(cls), cls, le, "p_type"))]
       shdrs == [i \in 1..shnum |-> Rec("shdr", "shdr:" \o shrole[i - 1], ShAt(i - 1))]
       phdrs == [j \in 1..phnum |-> Rec("phdr", "phdr:" \o phrole[j - 1], PhAt(j - 1))]
       \* content extents <<offset, length, count>> by role, sections first, then segments (the same bytes are taken once)
-      SecExt(role) == [i \in 1..shnum |-> IF shrole[i - 1] = role THEN <<SF_(i - 1, "sh_offset"), SF_(i - 1, "sh_size"), SF_(i - 1, "sh_info")>> ELSE <<0, 0, 0>>]
-      SegExt(role) == [j \in 1..phnum |-> IF phrole[j - 1] = role THEN <<PF_(j - 1, "p_offset"), PF_(j - 1, "p_filesz"), 0>> ELSE <<0, 0, 0>>]
+      SecExt(role) == [i \in 1..shnum |-> IF shrole[i - 1] = role THEN <<ShFld(i - 1, "sh_offset"), ShFld(i - 1, "sh_size"), ShFld(i - 1, "sh_info")>> ELSE <<0, 0, 0>>]
+      SegExt(role) == [j \in 1..phnum |-> IF phrole[j - 1] = role THEN <<PhFld(j - 1, "p_offset"), PhFld(j - 1, "p_filesz"), 0>> ELSE <<0, 0, 0>>]
       Exts(role, withsegs) == LET all == SecExt(role) \o (IF withsegs THEN SegExt(role) ELSE <<>>)
                                   ok == SelectSeq(all, LAMBDA e : e[2] > 0 /\ e[1] + e[2] <= size) IN
                               \* drop an extent that starts where an earlier one starts
@@ -257,8 +258,6 @@ Locate(bs) ==
       recs |-> [r \in 1..Len(raw) |-> [kind |-> raw[r].kind, role |-> raw[r].role, off |-> raw[r].off,
                                        idx |-> Cardinality({q \in 1..(r - 1) : raw[q].role = raw[r].role}),
                                        nrec |-> Cardinality({q \in 1..Len(raw) : raw[q].role = raw[r].role})]]]
-MinN(a, b) == IF a < b THEN a ELSE b
-
 (* ------------------------------ value classes -------------------------- *)
 ClassSeq == <<"zero", "one", "entm1", "fsize", "fsize1", "b31", "m32", "b63", "m64">>
 TopBit(w) == [i \in 1..w |-> IF i = w THEN 128 ELSE 0]
@@ -346,7 +345,7 @@ SeedTab == TLCEval([s \in 1..NSeeds |->
               grpOK |-> IF Seeds[s].synth \/ Tier = "thorough" THEN {"any"} ELSE {"ctor"}]])
 
 (* ------------------------------- faults -------------------------------- *)
-\* <<"F", i, 0>> CorruptField(SF entry i)   <<"S", pos, v>> Substitute   <<"T", n, 0>> Truncate
+\* <<"F", i, "">> CorruptField(SF entry i)   <<"S", pos, v>> Substitute   <<"T", n, "">> Truncate
 SubstVals == {"00", "ff", "+1", "^80"}
 SubstByte(cur, v) == CASE v = "00" -> 0 [] v = "ff" -> 255 [] v = "+1" -> (cur + 1) % 256 [] v = "^80" -> (cur + 128) % 256
 SubstRank(v) == CASE v = "00" -> 0 [] v = "ff" -> 1 [] v = "+1" -> 2 [] v = "^80" -> 3
@@ -377,16 +376,17 @@ TripleOK(s, fl, g) == /\ fl[1][1] = "F" /\ "ctor" \in SeedTab[s].sf[fl[1][2]].gr
                       /\ PairOK(s, fl[2], g)
 
 FirstFaults(s) ==
-  {<<"F", i, 0>> : i \in {i \in 1..Len(SeedTab[s].sf) : SeedTab[s].sf[i].single}}
+  {<<"F", i, "">> : i \in {i \in 1..Len(SeedTab[s].sf) : SeedTab[s].sf[i].single}}
   \cup {<<"S", pos, v>> : pos \in {p \in 0..63 : p < SeedTab[s].L.size}, v \in SubstVals}
-  \cup {<<"T", x, 0>> : x \in SeedTab[s].trunc}
+  \cup {<<"T", x, "">> : x \in SeedTab[s].trunc}
 NextFaults(s, fl) ==
   LET last == fl[Len(fl)] IN
   IF last[1] = "T" THEN {}
-  ELSE {<<"F", i, 0>> : i \in {i \in 1..Len(SeedTab[s].sf) : SeedTab[s].sf[i].grp # {} /\ i > (IF last[1] = "F" THEN last[2] ELSE 0)}}
+  ELSE {<<"F", i, "">> : i \in {i \in 1..Len(SeedTab[s].sf) : SeedTab[s].sf[i].grp # {} /\ i > (IF last[1] = "F" THEN last[2] ELSE 0)}}
        \cup {<<"S", pos, "ff">> : pos \in 0..15}
-       \cup {<<"T", x, 0>> : x \in SeedTab[s].keytrunc}
-Effective(s, f) == f[1] # "S" \/ SubstByte(Seeds[s].bytes[f[2] + 1], f[3]) # Seeds[s].bytes[f[2] + 1]
+       \cup {<<"T", x, "">> : x \in SeedTab[s].keytrunc}
+\* (IF, not \/: TLC splits a disjunction inside an action into two branches and evaluates both)
+Effective(s, f) == IF f[1] # "S" THEN TRUE ELSE SubstByte(Seeds[s].bytes[f[2] + 1], f[3]) # Seeds[s].bytes[f[2] + 1]
 
 Init == sd \in 1..NSeeds /\ fs = <<>>
 AddFault(g) ==
@@ -417,7 +417,8 @@ Model(B(_), L) ==
       \* a table offset that is nonzero with an entry size smaller than a header: no entry can be read
       badent == shoff > 0 /\ shent < shsz
       At(i) == IF shent = 0 \/ i = 0 THEN shoff ELSE IF shoff >= Far \/ i >= Far \/ i > (Far \div shent) THEN Far ELSE MinN(Far, shoff + i * shent) IN
-  IF badent THEN R("ELFError", "entsize", "")
+  IF shoff = 0 THEN R("OK", "no section table", "")                 \* gABI: e_shoff = 0 - the file has no section header table
+  ELSE IF badent THEN R("ELFError", "entsize", "")
   ELSE IF ndx0 = 65535 /\ At(0) + shsz > L                          \* SHN_XINDEX: the index is sh_link of entry 0, which is not in the file
        THEN R("ELFError", "xindex", IF At(0) > L THEN "shdr0 beyond EOF" ELSE "shdr0 cut by EOF")
   ELSE
@@ -481,7 +482,7 @@ PlanChangesSeed == fs # <<>> => \/ TruncLen(sd, fs) < SeedTab[sd].L.size
 
 \* the reader of this module finds in a synthesised image exactly what the writer of Elf.tla put there
 LocateRoundTripOf(k) ==
-  LET im == SynImages[k]   L == SeedTab[k].L   v == View(im)
+  LET im == SynImages[k]   L == SeedTab[k].L
       roles(r) == {q \in 1..Len(L.recs) : L.recs[q].role = r} IN
   /\ L.cls = im.cls /\ L.le = im.le /\ L.size = FileSize(im)
   /\ L.shnum = NSec(im) /\ L.shoff = ShOff(im) /\ L.shent = ShEnt(im) /\ L.strndx = StrIndex(im)
